@@ -88,6 +88,12 @@ def mkobj(name):
     old = css_parser.log.raiseExceptions
     p = css_parser.CSSParser(fetcher=nofetch, raiseExceptions=False)
     pre = '@namespace p "u1"; @namespace q "u2";' if name in ("stp", "stq") else ""
+    if name == "mg":        # a margin rule exists inside an @page only (the sheet parser discards it)
+        s = p.parseString("@page { " + RULES[name][0] + " }")
+        css_parser.log.raiseExceptions = old
+        r = s.cssRules[0].cssRules[0]
+        s.cssRules[0].deleteRule(0)
+        return r
     s = p.parseString(pre + RULES[name][0])
     css_parser.log.raiseExceptions = old
     r = s.cssRules[-1]
@@ -506,7 +512,8 @@ def wide_alphabet():
     return A
 
 
-ALL_NAMES = ["cs1", "im", "np1", "var", "st", "stp", "md", "mdn", "pg", "pgm", "ff", "un", "cm", "mg"]
+# (namespaced selectors inside a container are outside the modelled alphabet: no "stp" here)
+ALL_NAMES = ["cs1", "im", "np1", "var", "st", "md", "mdn", "pg", "pgm", "ff", "un", "cm", "mg"]
 
 
 def container_ops(k, rx=None):
